@@ -80,11 +80,152 @@ def unclip(t):
     return t
 
 
+PIECEWISE = {"abs", "where", "maximum", "minimum", "sign"}
+HELPERS = {"aspire.utils:logit", "aspire.utils:sigmoid"}
+LOGIT_CALL, SIGMOID_CALL = "call:aspire.utils:logit", "call:aspire.utils:sigmoid"
+
+
+def apply_contract(t):
+    """Modular reasoning: utils.logit / utils.sigmoid are verified as a pair on
+    their own (C04.anti / C04.rt / C04.deriv on aspire.utils:logit/sigmoid); at
+    class level their calls stay opaque and the contract is applied:
+    sigmoid(logit(u)[0]) == (u, -logit(u)[1]), away from the clip."""
+    mapping = {}
+    for s_ in T.subterms(t):
+        if s_ and s_[0] == "f" and s_[1] == SIGMOID_CALL and s_[2]:
+            arg = s_[2][0]
+            if arg[0] == "s" and T.const_value(arg[2]) == 0 and arg[1][0] == "f" and arg[1][1] == LOGIT_CALL:
+                lc = arg[1]
+                mapping[("s", s_, T.const(0))] = lc[2][0]
+                mapping[("s", s_, T.const(1))] = T.neg(("s", lc, T.const(1)))
+    return T.substitute(t, mapping) if mapping else t
+
+
+def sign_cases(terms):
+    """Case split on the sign of the arguments of abs() and of where() tests
+    (piecewise / overflow-safe formulations).  Yields (label, substituted terms);
+    boundaries have measure zero and are ignored."""
+    import itertools as _it
+    from ..evalr import norm_app
+
+    def canon(u):
+        if T.is_poly(u) and u[1] and u[1][0][1] < 0:
+            return T.neg(u), -1
+        return u, 1
+
+    atoms = []
+    for t in terms:
+        for s_ in T.subterms(t):
+            if s_ and s_[0] == "f" and s_[1] == "abs" and len(s_[2]) == 1:
+                a, _ = canon(s_[2][0])
+                if a not in atoms:
+                    atoms.append(a)
+            if s_ and s_[0] == "f" and s_[1] == "where" and len(s_[2]) == 3 and s_[2][0][0] == "cmp" and len(s_[2][0]) == 3:
+                a, _ = canon(s_[2][0][2])
+                if a not in atoms:
+                    atoms.append(a)
+    if not atoms:
+        yield "", list(terms)
+        return
+    if len(atoms) > 3:
+        yield None, list(terms)
+        return
+    for signs in _it.product((1, -1), repeat=len(atoms)):
+        sg = dict(zip(atoms, signs))
+        out = []
+        for t in terms:
+            for _round in range(4):
+                mapping = {}
+                for s_ in T.subterms(t):
+                    if s_ and s_[0] == "f" and s_[1] == "abs" and len(s_[2]) == 1:
+                        a, k = canon(s_[2][0])
+                        if a in sg:
+                            mapping[s_] = s_[2][0] if sg[a] * k > 0 else T.neg(s_[2][0])
+                    if s_ and s_[0] == "f" and s_[1] == "where" and len(s_[2]) == 3 and s_[2][0][0] == "cmp" and len(s_[2][0]) == 3:
+                        a, k = canon(s_[2][0][2])
+                        if a in sg and s_[2][0][1] in (">", ">="):
+                            mapping[s_] = s_[2][1] if sg[a] * k > 0 else s_[2][2]
+                if not mapping:
+                    break
+                t = T.substitute(t, mapping)
+                # re-normalise exp/log applications that became simplifiable
+                t = _renorm(t)
+            out.append(t)
+        yield ", ".join(f"{T.show(a)[:30]}{'>0' if v > 0 else '<0'}" for a, v in sg.items()), out
+
+
+def _renorm(t):
+    from ..evalr import norm_app
+
+    def rec(x):
+        if not isinstance(x, tuple) or not x:
+            return x
+        if x[0] == "p":
+            total = T.ZERO
+            for m, c in x[1]:
+                term = T.const(c)
+                for b, e in m:
+                    rb = rec(b)
+                    term = T.mul(term, T.powi(rb, e) if e > 0 else T.div(T.ONE, T.powi(rb, -e)))
+                total = T.add(total, term)
+            return total
+        if x[0] == "f":
+            args = [rec(a) for a in x[2]]
+            kw = {k: rec(v) for k, v in x[3]}
+            if x[1] in ("exp", "log", "sum", "mean", "erf", "erfinv", "square"):
+                return norm_app(x[1], args, kw)
+            return ("f", x[1], tuple(args), tuple(sorted(kw.items())))
+        if x[0] == "phi":
+            return T.phi(x[1], rec(x[2]), rec(x[3]))
+        if x[0] == "s":
+            return ("s", rec(x[1]), rec(x[2]))
+        return x
+
+    return rec(t)
+
+
+def in_fragment(t) -> bool:
+    """Is the residual built only from constructs the normal forms decide?"""
+    for s_ in T.subterms(t):
+        if s_ and s_[0] == "f" and s_[1] in PIECEWISE:
+            return False
+        if s_ and s_[0] in ("phi", "opaque"):
+            return False
+    return True
+
+
+def jac_zero(tot, x):
+    """'zero' / 'nonzero' / 'unknown' for a log-Jacobian residual, using the
+    log-abs normal form and sign case splits for piecewise code."""
+    from ..deriv import NotDifferentiable, normalise_jacobian
+
+    verdicts = []
+    for label, (tt,) in sign_cases([tot]):
+        if label is None:
+            return "unknown", "too many piecewise atoms"
+        if tt == T.ZERO or T.rat_zero(tt):
+            verdicts.append(("zero", label))
+            continue
+        try:
+            nn = normalise_jacobian(tt, x)
+        except NotDifferentiable:
+            nn = tt
+        if nn == T.ZERO or T.rat_zero(nn):
+            verdicts.append(("zero", label))
+        elif in_fragment(nn):
+            return "nonzero", (f"[{label}] " if label else "") + T.show(nn)[:200]
+        else:
+            verdicts.append(("unknown", label))
+    if all(v == "zero" for v, _ in verdicts):
+        return "zero", ""
+    return "unknown", "residual outside the decidable fragment"
+
+
 def pair_check(ctx, repo, c, fwd_name, inv_name, construct, prefold=("__init__",), fit_first=False):
     """Antisymmetry + round trip for one forward/inverse pair of class *c*."""
     fwd, inv = c.resolve(fwd_name), c.resolve(inv_name)
     bp = (fwd.params[1],)
-    ev = Evaluator(repo, batch_params=bp)
+    ev = Evaluator(repo, batch_params=bp, no_inline=HELPERS)
     for name in prefold:
         m = c.resolve(name)
         if m is not None:
@@ -105,12 +246,15 @@ def pair_check(ctx, repo, c, fwd_name, inv_name, construct, prefold=("__init__",
     if ri[0] != "t" or len(ri[1]) != 2:
         ctx.unknown("C04.anti", construct, loc_of(inv), f"{inv_name} does not return a (value, log-Jacobian) pair")
         return
-    x2, ji = ri[1]
-    tot = T.add(jf, ji)
-    ok = tot == T.ZERO or T.rat_zero(tot)
-    ctx.decide(ok, "C04.anti", construct, loc_of(inv),
-               f"log-Jacobian of {inv_name} at the {fwd_name} image == -(log-Jacobian of {fwd_name}): {T.show(jf)[:160]}",
-               f"forward log-Jacobian {T.show(jf)[:200]} and inverse log-Jacobian at the corresponding point {T.show(ji)[:200]} do not cancel (sum = {T.show(tot)[:200]})")
+    x2, ji = apply_contract(ri[1][0]), apply_contract(ri[1][1])
+    tot = T.add(unclip(jf), unclip(ji))
+    verdict, why = jac_zero(tot, x)
+    if verdict == "unknown":
+        ctx.unknown("C04.anti", construct, loc_of(inv), f"cannot decide whether the forward and inverse log-Jacobians cancel: {why}")
+    else:
+        ctx.decide(verdict == "zero", "C04.anti", construct, loc_of(inv),
+                   f"log-Jacobian of {inv_name} at the {fwd_name} image == -(log-Jacobian of {fwd_name}): {T.show(jf)[:160]}",
+                   f"forward log-Jacobian {T.show(jf)[:200]} and inverse log-Jacobian at the corresponding point {T.show(ji)[:200]} do not cancel (residual {why})")
     # round trip where decidable
     d = T.sub(unclip(x2), x)
     if d == T.ZERO or T.rat_zero(d):
@@ -282,7 +426,7 @@ def deriv_check(ctx, repo, c, construct_prefix):
 
     for direction in ("forward", "inverse"):
         m = c.resolve(direction)
-        ev = Evaluator(repo, batch_params=("x", "y", "x_fit"),
+        ev = Evaluator(repo, batch_params=("x", "y", "x_fit"), no_inline=HELPERS,
                        assume=lambda cnd: False if cnd in (T.atom("eps"), self_attr("eps")) else None)
         init = c.resolve("__init__")
         if init is not None:
@@ -299,16 +443,26 @@ def deriv_check(ctx, repo, c, construct_prefix):
             ctx.unknown("C04.deriv", construct, loc_of(m), "does not return a pair")
             continue
         y, j = unclip(ret[1][0]), unclip(ret[1][1])
+        results = []
         try:
-            d = diff(y, x)
-            want = colsum(logabs(d), x)
-            got = normalise_jacobian(j, x)
+            for label, (yy, jj) in sign_cases([y, j]):
+                if label is None:
+                    raise NotDifferentiable("too many piecewise atoms")
+                d = diff(yy, x)
+                want = colsum(logabs(d), x)
+                got = normalise_jacobian(jj, x)
+                results.append((label, got == want, got, want, d))
         except NotDifferentiable as e:
             ctx.unknown("C04.deriv", construct, loc_of(m), f"map is not in the differentiable element-wise fragment ({e})")
             continue
-        ctx.decide(got == want, "C04.deriv", construct, loc_of(m),
+        bad = [r for r in results if not r[1]]
+        if bad and not all(in_fragment(r[2]) and in_fragment(r[3]) for r in bad):
+            ctx.unknown("C04.deriv", construct, loc_of(m), "log-Jacobian or derivative outside the decidable fragment")
+            continue
+        label, _, got, want, d = (bad or results)[0]
+        ctx.decide(not bad, "C04.deriv", construct, loc_of(m),
                    f"log-Jacobian == sum over parameters of log|d {direction}(v)/dv| = {T.show(want)[:140]}",
-                   f"reported log-Jacobian {T.show(got)[:220]} is not the log absolute derivative of the map, {T.show(want)[:220]} (d/dv = {T.show(d)[:120]})")
+                   (f"[{label}] " if label else "") + f"reported log-Jacobian {T.show(got)[:220]} is not the log absolute derivative of the map, {T.show(want)[:220]} (d/dv = {T.show(d)[:120]})")
 
 
 def run(ctx):
@@ -378,12 +532,49 @@ def run(ctx):
     x2, ji = rs[1]
     tot = T.add(jf, ji)
     ctx.count("functions_folded", 2)
-    ctx.decide(tot == T.ZERO or T.rat_zero(tot), "C04.anti", "aspire.utils:logit/sigmoid", loc_of(sg),
-               "sigmoid log-Jacobian at logit(x) == -(logit log-Jacobian)",
-               f"logit log-Jacobian {T.show(jf)[:200]} and sigmoid log-Jacobian at the image {T.show(ji)[:200]} do not cancel")
-    d = T.sub(x2, x)
-    ctx.decide(d == T.ZERO or T.rat_zero(d), "C04.rt", "aspire.utils:logit/sigmoid", loc_of(sg),
-               "sigmoid(logit(x)) == x symbolically", f"sigmoid(logit(x)) - x = {T.show(d)[:200]}")
+    verdict, why = jac_zero(tot, x)
+    if verdict == "unknown":
+        ctx.unknown("C04.anti", "aspire.utils:logit/sigmoid", loc_of(sg), f"cannot decide whether the logit and sigmoid log-Jacobians cancel: {why}")
+    else:
+        ctx.decide(verdict == "zero", "C04.anti", "aspire.utils:logit/sigmoid", loc_of(sg),
+                   "sigmoid log-Jacobian at logit(x) == -(logit log-Jacobian)",
+                   f"logit log-Jacobian {T.show(jf)[:200]} and sigmoid log-Jacobian at the image {T.show(ji)[:160]} do not cancel (residual {why})")
+    rts = []
+    for label, (xx,) in sign_cases([x2]):
+        d = T.sub(xx, x) if label is not None else None
+        rts.append("zero" if d is not None and (d == T.ZERO or T.rat_zero(d)) else ("nonzero" if d is not None and in_fragment(d) else "unknown"))
+    if "nonzero" in rts:
+        ctx.refute("C04.rt", "aspire.utils:logit/sigmoid", loc_of(sg), f"sigmoid(logit(x)) != x on some branch: {T.show(x2)[:200]}")
+    elif all(r == "zero" for r in rts):
+        ctx.prove("C04.rt", "aspire.utils:logit/sigmoid", loc_of(sg), "sigmoid(logit(x)) == x symbolically")
+    else:
+        ctx.unknown("C04.rt", "aspire.utils:logit/sigmoid", loc_of(sg), "cannot decide sigmoid(logit(x)) == x")
+    # helper-level derivative check (the class level relies on this contract)
+    from ..deriv import NotDifferentiable, colsum, diff, logabs, normalise_jacobian
+    for fn_, par in ((lg, lg.params[0]), (sg, sg.params[0])):
+        evd = Evaluator(repo, batch_params=(par,), assume=lambda c: False if c == T.atom("eps") else None)
+        rr = T.strip_raise(evd.run(fn_, None))
+        xv = T.atom(par)
+        if rr[0] != "t" or len(rr[1]) != 2:
+            ctx.unknown("C04.deriv", fn_.ident, loc_of(fn_), "does not return a pair")
+            continue
+        res = []
+        try:
+            for label, (yy, jj) in sign_cases([rr[1][0], rr[1][1]]):
+                if label is None:
+                    raise NotDifferentiable("too many piecewise atoms")
+                dd = diff(yy, xv)
+                res.append((label, normalise_jacobian(jj, xv), colsum(logabs(dd), xv), dd))
+        except NotDifferentiable as e:
+            ctx.unknown("C04.deriv", fn_.ident, loc_of(fn_), f"not in the differentiable element-wise fragment ({e})")
+            continue
+        badd = [r_ for r_ in res if r_[1] != r_[2]]
+        if badd and not all(in_fragment(r_[1]) and in_fragment(r_[2]) for r_ in badd):
+            ctx.unknown("C04.deriv", fn_.ident, loc_of(fn_), "log-Jacobian or derivative outside the decidable fragment")
+            continue
+        lab, got_, want_, dd = (badd or res)[0]
+        ctx.decide(not badd, "C04.deriv", fn_.ident, loc_of(fn_), f"{fn_.name}: log-Jacobian == sum over the last axis of log|d {fn_.name}(v)/dv|",
+                   (f"[{lab}] " if lab else "") + f"{fn_.name} reports log-Jacobian {T.show(got_)[:200]} but log|derivative| is {T.show(want_)[:200]}")
     want_logit = spec("log(x) - log(1 - x)", x=x)
     ctx.decide(y == want_logit, "C04.form", lg.ident, loc_of(lg), "logit(x) == log(x) - log(1-x)",
                f"logit returns {T.show(y)[:200]}")
@@ -591,7 +782,13 @@ MUTANTS += [
     M("reloaded affine log-det sign", _T, "self._std = asarray(h5_file[\"std\"][()], xp=self.xp)\n        self.log_abs_det_jacobian = -self.xp.log(self.xp.abs(self._std)).sum()", "self._std = asarray(h5_file[\"std\"][()], xp=self.xp)\n        self.log_abs_det_jacobian = self.xp.log(self.xp.abs(self._std)).sum()", "C04.affine"),
     M("bounded class chosen by inequality", _T, "if self.bounded_transform == \"probit\":\n                BoundedClass = ProbitTransform", "if self.bounded_transform != \"probit\":\n                BoundedClass = ProbitTransform", "C04.wire"),
 ]
+MUTANTS += [
+    M("overflow-safe sigmoid with a wrong Jacobian", _U, "x = xp.divide(1, 1 + xp.exp(-x))\n    log_j = (xp.log(x) + xp.log1p(-x)).sum(-1)\n    return x, log_j",
+      "abs_x = xp.abs(x)\n    exp_neg = xp.exp(-abs_x)\n    y = xp.where(x >= 0, 1 / (1 + exp_neg), exp_neg / (1 + exp_neg))\n    log_j = -(abs_x + xp.log1p(exp_neg)).sum(-1)\n    return y, log_j", ("C04.anti", "C04.deriv")),
+]
 NEUTRALS = [
+    M("overflow-safe sigmoid with the right Jacobian", _U, "x = xp.divide(1, 1 + xp.exp(-x))\n    log_j = (xp.log(x) + xp.log1p(-x)).sum(-1)\n    return x, log_j",
+      "abs_x = xp.abs(x)\n    exp_neg = xp.exp(-abs_x)\n    y = xp.where(x >= 0, 1 / (1 + exp_neg), exp_neg / (1 + exp_neg))\n    log_j = -(abs_x + 2 * xp.log1p(exp_neg)).sum(-1)\n    return y, log_j"),
     M("affine forward via temporaries", _T, "y = (x - self._mean) / self._std", "centred = x - self._mean\n        y = centred / self._std"),
     M("affine inverse operand order", _T, "x = y * self._std + self._mean", "x = self._mean + self._std * y"),
     M("logit Jacobian regrouped", _U, "log_j = (-xp.log(x) - xp.log1p(-x)).sum(-1)", "log_j = -(xp.log(x) + xp.log1p(-x)).sum(-1)"),
